@@ -584,9 +584,22 @@ def _is_br(u):
 
 def gen_dot(ctx, op):
     n_in = ctx.draw(st.sampled_from([2, 2, 2, 3]))
-    pool = _vector_units(ctx, 3, allow_fam=True)
-    ncon = ctx.draw(st.sampled_from([0, 1, 1, 1, 2, 2]))
-    ins_units = [ctx.subset(pool, 0.5) for _ in range(n_in)]
+    meta = {}
+    # a quarter of the two-operand cases: several batch axes shared by both operands, each operand in its own order (the
+    # batched-matmul lowering of the numpylike back ends flattens them into one group per operand)
+    batch_mode = n_in == 2 and not ctx.simple and ctx.b(0.25)
+    if batch_mode:
+        pool = [("leaf", ctx.new_axis(no1=True), False) for _ in range(ctx.draw(st.sampled_from([2, 2, 3])))]
+        extra = _vector_units(ctx, 2, allow_fam=True)
+        ins_units = [list(pool) + ctx.subset(extra, 0.5) for _ in range(n_in)]
+        ncon = ctx.draw(st.sampled_from([1, 1, 2]))
+        meta["prefer_backend"] = "numpy.numpylike"
+    else:
+        pool = _vector_units(ctx, 3, allow_fam=True)
+        ncon = ctx.draw(st.sampled_from([0, 1, 1, 1, 2, 2]))
+        # a third of the cases share most vectorised axes between the operands
+        p_sub = ctx.draw(st.sampled_from([0.5, 0.5, 0.9]))
+        ins_units = [ctx.subset(pool, p_sub) for _ in range(n_in)]
     for _ in range(ncon):
         a = ("leaf", ctx.new_axis(), True)
         i, j = ctx.draw(st.permutations(range(n_in)))[:2]
@@ -598,7 +611,7 @@ def gen_dot(ctx, op):
     # rule) and must then occur in exactly two inputs: no squeezing / stray "1" in that mode
     auto = ncon == 0
     out_units = _out_units(ctx, union, allow_squeeze=not auto)
-    return [wrap(ctx, us, extras=not auto) for us in ins_units], [wrap(ctx, out_units)], {}
+    return [wrap(ctx, us, extras=not auto) for us in ins_units], [wrap(ctx, out_units)], meta
 
 
 def _coord_layout(ctx, K):
@@ -836,7 +849,46 @@ def _id_concat2_block(ctx, pool, ins, outs):
         outs.extend(separate())
 
 
+def gen_vmapop(ctx, op):
+    """A user function adapted with vmap: 1-3 inputs and 1-2 outputs, each with vectorised units and 0-2 bracketed units;
+    bracketed axes may be shared between tensors, output brackets may hold new axes (sized by keyword) or numbers."""
+    pool = _vector_units(ctx, 3, allow_fam=True)
+    n_in = ctx.draw(st.sampled_from([1, 2, 2, 3]))
+    shared = []
+
+    def bracket_units(nb, output):
+        brs = []
+        for _ in range(nb):
+            r = ctx.draw(st.integers(0, 9))
+            if shared and r <= 3:
+                u = ctx.pick(shared)
+            elif r == 4:
+                u = ("leaf", ctx.new_num(ctx.draw(st.sampled_from(LENS))), True)
+            elif r == 5 and not output:
+                u = ("fam", ctx.new_family(k=ctx.draw(st.sampled_from([1, 2]))), True, "plain")
+                shared.append(u)
+            else:
+                u = ("leaf", ctx.new_axis(), True)
+                shared.append(u)
+            if u not in brs:
+                brs.append(u)
+        return brs
+
+    ins_units = []
+    for _ in range(n_in):
+        us = ctx.subset(pool, 0.65)
+        ins_units.append(ctx.perm(us + bracket_units(ctx.draw(st.sampled_from([0, 1, 1, 2])), False)))
+    union = _dedupe([u for us in ins_units for u in us if not _is_br(u)])
+    n_out = ctx.draw(st.sampled_from([1, 1, 2]))
+    outs_units = []
+    for _ in range(n_out):
+        ov = _out_units(ctx, union)
+        outs_units.append(ctx.perm(ov + bracket_units(ctx.draw(st.sampled_from([0, 1, 1, 2])), True)))
+    return [wrap(ctx, us) for us in ins_units], [wrap(ctx, us, extras=False) for us in outs_units], {}
+
+
 FAMILY_GEN = {
+    "vmapop": gen_vmapop,
     "id": gen_id,
     "elementwise": gen_elementwise,
     "reduce": gen_reduce,
@@ -1027,6 +1079,8 @@ def call_case(draw, ops=None, backends=None, quick=True, simple=False, min_input
     extra_eqs = _structural_equations(fam, ins, outs, env)
     sizes, smeta = compute_sizes(ctx, ins, outs, known_mask=[not f for f in fmask] if fmask else None, extra_eqs=extra_eqs)
     backend = draw(st.sampled_from(backends or BACKENDS))
+    if meta.get("prefer_backend") is not None and meta["prefer_backend"] in (backends or BACKENDS) and draw(st.integers(0, 9)) < 6:
+        backend = meta.get("prefer_backend")
     if fmask and all(fmask) and backend is None:
         backend = "numpy"  # callables alone do not select a backend
     kinds = data_kinds_for(op, len(ins))
@@ -1068,6 +1122,19 @@ def call_case(draw, ops=None, backends=None, quick=True, simple=False, min_input
         case["implicit_ok"] = implicit_ok
     case["meta"]["det_fams"] = smeta.get("det_fams", [])
     return case
+
+
+NSTRATA = 16
+
+
+@st.composite
+def stratified_case(draw, k, share=50, **kw):
+    """call_case, but `share` percent of the cases are restricted to the 2-3 operations assigned to stratum k (worker index):
+    every operation receives a guaranteed part of each run whatever the random draws do."""
+    if kw.get("ops") is None and draw(st.integers(0, 99)) < share:
+        ops = [op for i, op in enumerate(ALL_OPS) if i % NSTRATA == k % NSTRATA]
+        return draw(call_case(**{**kw, "ops": ops}))
+    return draw(call_case(**kw))
 
 
 def _structural_equations(fam, ins, outs, env):
